@@ -751,6 +751,7 @@ type Result struct {
 	// truncated: a summary was skipped because of the recursion bound or a cycle;
 	// the result is sound but must not be reused at a shallower depth
 	truncated bool
+	guards    *core.Guards
 }
 
 func ctxKey(f *ssa.Function, binds map[*ssa.Parameter]Bind, entry []int) string {
@@ -1473,6 +1474,146 @@ func (a *Analyzer) EntryBounds(f *ssa.Function, depth int) []int {
 	return out
 }
 
+// ---------------------------------------------------------------- guarded int bounds
+
+// guardsOf computes (once per result) the must-facts of branch conditions of the function.
+func (r *Result) guardsOf() *core.Guards {
+	if r.guards == nil {
+		r.guards = core.ComputeGuards(r.fc.fn, r.an.NoReturn)
+	}
+	return r.guards
+}
+
+// lbFromFacts: the best lower bound of int value v implied by comparisons of v with constants
+// among the given facts (v >= c, v > c, c <= v, c < v, v == c and their negations).
+func (r *Result) lbFromFacts(v ssa.Value, facts map[core.EdgeFact]bool, extra *core.EdgeFact) (int, bool) {
+	best, found := 0, false
+	try := func(f core.EdgeFact) {
+		bo, ok := f.If.Cond.(*ssa.BinOp)
+		if !ok {
+			return
+		}
+		op := bo.Op
+		var c int
+		switch {
+		case bo.X == v:
+			k, ok := r.fc.IntConst(bo.Y)
+			if !ok {
+				return
+			}
+			c = k
+		case bo.Y == v:
+			k, ok := r.fc.IntConst(bo.X)
+			if !ok {
+				return
+			}
+			c = k
+			op = mirror(op)
+		default:
+			return
+		}
+		if !f.Branch {
+			op = negate(op)
+		}
+		lb := 0
+		switch op {
+		case token.GEQ, token.EQL:
+			lb = c
+		case token.GTR:
+			lb = c + 1
+		default:
+			return
+		}
+		if !found || lb > best {
+			best, found = lb, true
+		}
+	}
+	for f := range facts {
+		try(f)
+	}
+	if extra != nil {
+		try(*extra)
+	}
+	return best, found
+}
+
+// IntLBAt returns a lower bound of int value v that holds whenever control is at the start of
+// block blk: the stateless bound, or a bound implied by the branch conditions that hold on every
+// path to blk; a phi is bounded by the minimum over its edges, each evaluated with the facts that
+// hold at the end of the corresponding predecessor. SSA values are immutable, so a comparison that
+// held on the way still holds.
+func (r *Result) IntLBAt(v ssa.Value, blk *ssa.BasicBlock) (int, bool) {
+	return r.intLBAt(v, blk, nil, 0)
+}
+
+func (r *Result) intLBAt(v ssa.Value, blk *ssa.BasicBlock, extra *core.EdgeFact, depth int) (int, bool) {
+	if b, ok := r.fc.IntLB(v, 0); ok && b != Inf {
+		return b, true
+	}
+	if depth > 4 || blk == nil {
+		return 0, false
+	}
+	g := r.guardsOf()
+	if b, ok := r.lbFromFacts(v, g.Facts(blk), extra); ok {
+		return b, true
+	}
+	switch x := v.(type) {
+	case *ssa.Phi:
+		pb := x.Block()
+		m, any := Inf, false
+		for i, e := range x.Edges {
+			if i >= len(pb.Preds) {
+				return 0, false
+			}
+			pred := pb.Preds[i]
+			if g.Facts(pred) == nil || g.Dead[pred] {
+				continue // predecessor unreachable, or it raises and never continues
+			}
+			var ef *core.EdgeFact
+			if ifi, ok := pred.Instrs[len(pred.Instrs)-1].(*ssa.If); ok && len(pred.Succs) == 2 && pred.Succs[0] != pred.Succs[1] {
+				ef = &core.EdgeFact{If: ifi, Branch: pred.Succs[0] == pb}
+			}
+			if e == ssa.Value(x) {
+				continue
+			}
+			b, ok := r.intLBAtEnd(e, pred, ef, depth+1)
+			if !ok {
+				return 0, false
+			}
+			any = true
+			if b < m {
+				m = b
+			}
+		}
+		if any && m != Inf {
+			return m, true
+		}
+	case *ssa.Convert:
+		// int64 -> int and the like: value preserving on the 64-bit targets the module builds for
+		if isIntT(x.X.Type()) && isIntT(x.Type()) && sameWidthSigned(x.X.Type(), x.Type()) {
+			return r.intLBAt(x.X, blk, extra, depth+1)
+		}
+	case *ssa.ChangeType:
+		return r.intLBAt(x.X, blk, extra, depth+1)
+	}
+	return 0, false
+}
+
+// intLBAtEnd: bound of v at the end of block pred when leaving it along the edge described by ef.
+func (r *Result) intLBAtEnd(v ssa.Value, pred *ssa.BasicBlock, ef *core.EdgeFact, depth int) (int, bool) {
+	return r.intLBAt(v, pred, ef, depth)
+}
+
+func sameWidthSigned(a, b types.Type) bool {
+	ba, ok1 := a.Underlying().(*types.Basic)
+	bb, ok2 := b.Underlying().(*types.Basic)
+	if !ok1 || !ok2 {
+		return false
+	}
+	signed64 := func(k types.BasicKind) bool { return k == types.Int || k == types.Int64 }
+	return signed64(ba.Kind()) && signed64(bb.Kind())
+}
+
 // ---------------------------------------------------------------- conditions
 
 func (r *Result) applyCond(st State, cond ssa.Value, branch bool) {
@@ -1512,7 +1653,7 @@ func (r *Result) applyCond(st State, cond ssa.Value, branch bool) {
 				op = negate(op)
 			}
 			if rr, il, ok := r.fc.ResolveInt(lhs); ok && il {
-				if b, ok := r.fc.IntLB(rhs, 0); ok {
+				if b, ok := r.IntLBAt(rhs, x.Block()); ok {
 					switch op {
 					case token.GTR:
 						r.raise(st, rr.Root, b+1+rr.Off)
@@ -1522,7 +1663,7 @@ func (r *Result) applyCond(st State, cond ssa.Value, branch bool) {
 				}
 			}
 			if rr, il, ok := r.fc.ResolveInt(rhs); ok && il {
-				if b, ok := r.fc.IntLB(lhs, 0); ok {
+				if b, ok := r.IntLBAt(lhs, x.Block()); ok {
 					switch op {
 					case token.LSS:
 						r.raise(st, rr.Root, b+1+rr.Off)
